@@ -164,7 +164,7 @@ def strategy(tier):
 
 
 def budget(tier):
-    return 150 if tier == "quick" else 4000
+    return 400 if tier == "quick" else 4000
 
 
 def edge(cells, side):
